@@ -196,3 +196,62 @@ Definition run_dec (k : case_dec) : option (option str * pres) :=
 Definition dec1 (e : Z) : str := [if e <? 58 then e else e + 1].
 Definition undec1 (s : str) : option Z :=
   match s with [c] => Some (if c <? 58 then c else c - 1) | _ => None end.
+
+(* ---- suite [member] (extension 4): render / splitk / parse / gc_item
+   evaluated on WHOLE member strings against the real generateMember /
+   extractMemberFromItem / validateMemberIntegrity (driven through the shim
+   quota/verif_c02b.go) ---- *)
+
+(* timeDeltaForDeadRequestDecision (= Model.delta: Property4.C02_slack_is_delta) *)
+Definition slack : Z := 10000000.
+
+(* what extractMemberFromItem leaves in parsedMember.ExpiryTime:
+   clock.Until(time.Unix(0, e)) — time.Time.Sub SATURATES at the ends of
+   Duration — and then "if < 0 then 0" *)
+Definition sat64 (d : Z) : Z :=
+  Z.max (-9223372036854775808) (Z.min 9223372036854775807 d).
+Definition remaining (now e : Z) : Z := Z.max 0 (sat64 (e - now)).
+
+(* the observable reading of one item at clock [now]: (ExpiryTime, ReqID,
+   InstanceID), None = extractMemberFromItem returned an error *)
+Definition parsed_obs (now : Z) (item : str) : option (Z * str * str) :=
+  match parse undec10 head4 item with
+  | Some (e, rid, inst) => Some (remaining now e, rid, inst)
+  | None => None
+  end.
+
+Definition parsed_eqb (a b : option (Z * str * str)) : bool :=
+  match a, b with
+  | None, None => true
+  | Some (x, r, i), Some (y, r', i') => (x =? y) && str_eqb r r' && str_eqb i i'
+  | _, _ => false
+  end.
+
+(* one case: [cm_gen] = Some (g, ttl): the code's generateMember, called with
+   the clock at g, request expiry ttl, request id cm_rid under instance id
+   cm_inst, wrote cm_item; None: cm_item is a string the harness made up.
+   Then one GC item on cm_item at clock cm_now: cm_parsed = what
+   extractMemberFromItem returned, cm_coll = the item was collected
+   (validateMemberIntegrity took the SRem + delete branch; false also when the
+   parser refused: the GC loop skips the item) *)
+Record case_member := mkCM {
+  cm_gen : option (Z * Z);
+  cm_rid : str;
+  cm_inst : str;
+  cm_item : str;
+  cm_now : Z;
+  cm_parsed : option (Z * str * str);
+  cm_coll : bool }.
+
+Definition member_expiry (g ttl : Z) : Z := g + ttl + slack.
+
+Definition run_member (k : case_member) : option (option str * option (Z * str * str) * bool) :=
+  let w := match cm_gen k with
+           | Some (g, ttl) => Some (render dec10 (member_expiry g ttl) (cm_rid k) (cm_inst k))
+           | None => None
+           end in
+  let p := parsed_obs (cm_now k) (cm_item k) in
+  let c := gc_item undec10 head4 (cm_now k) (cm_item k) in
+  if match w with Some s => str_eqb s (cm_item k) | None => true end
+     && parsed_eqb p (cm_parsed k) && Bool.eqb c (cm_coll k)
+  then None else Some (w, p, c).
